@@ -132,17 +132,49 @@ def _check_sums(ctx: Ctx) -> None:
     for path, q, want, accessors, operands in SUMS:
         fn = M.func(path, q)
         loops = [n for n in walk_no_nested(fn.node) if isinstance(n, ast.For)]
-        if len(loops) != 1 or not isinstance(loops[0].target, ast.Name):
+        scan: List[ast.AST] = []
+        if len(loops) == 1 and isinstance(loops[0].target, ast.Name):
+            loop = loops[0]
+            v = loop.target.id
+            dom_iter = loop.iter
+            scan = list(ast.walk(loop))
+        elif not loops:
+            # sum(<generator>, start): follow the chain of generators (possibly named) down to the one over the users
+            from ..astutil import single_locals
+            defs_ = single_locals(fn)
+            sums = [c for c in walk_no_nested(fn.node) if isinstance(c, ast.Call) and norm(c.func) in ('sum', 'np.sum') and c.args]
+            gen = None
+            chain: List[ast.AST] = []
+            if len(sums) == 1:
+                e_ = sums[0].args[0]
+                for _ in range(6):
+                    if isinstance(e_, ast.Name) and e_.id in defs_:
+                        e_ = defs_[e_.id]
+                        continue
+                    if isinstance(e_, (ast.GeneratorExp, ast.ListComp)) and len(e_.generators) == 1:
+                        chain.append(e_)
+                        it_ = e_.generators[0].iter
+                        if isinstance(it_, ast.Name) and it_.id in defs_ and isinstance(defs_[it_.id], (ast.GeneratorExp, ast.ListComp)):
+                            e_ = defs_[it_.id]
+                            continue
+                        gen = e_
+                    break
+            if gen is None or not isinstance(gen.generators[0].target, ast.Name):
+                ctx.error('C11.b: %s has neither a single summation loop nor one sum over a generator chain (cannot tell)' % q)
+            loop = sums[0]
+            v = gen.generators[0].target.id
+            dom_iter = gen.generators[0].iter
+            for g_ in chain:
+                scan += list(ast.walk(g_))
+        else:
             ctx.error('C11.b: %s no longer has a single summation loop' % q)
-        loop = loops[0]
-        v = loop.target.id
         construct = q
         ctx.instance('C11.b', construct)
         problems = []
-        dom = _domain(fn, loop.iter)
+        dom = _domain(fn, dom_iter)
         if dom != want:
             problems.append('sums over %s, the formula needs %s' % (dom, 'all users' if want == 'all' else 'all users except k'))
-        for n in ast.walk(loop):
+        for n in scan:
             if isinstance(n, ast.Call) and isinstance(n.func, ast.Attribute) and n.func.attr in accessors:
                 args = [norm(a) for a in n.args]
                 if args != ['k', v]:
@@ -150,8 +182,8 @@ def _check_sums(ctx: Ctx) -> None:
             if isinstance(n, ast.Subscript) and norm(n.value) in operands and isinstance(n.ctx, ast.Load):
                 if norm(n.slice) != v:
                     problems.append('%s[%s] is not indexed by the loop variable %s' % (norm(n.value), norm(n.slice), v))
-        n_acc = sum(1 for n in ast.walk(loop) if isinstance(n, ast.Call) and isinstance(n.func, ast.Attribute) and n.func.attr in accessors)
-        n_ops = sum(1 for n in ast.walk(loop) if isinstance(n, ast.Subscript) and norm(n.value) in operands)
+        n_acc = sum(1 for n in scan if isinstance(n, ast.Call) and isinstance(n.func, ast.Attribute) and n.func.attr in accessors)
+        n_ops = sum(1 for n in scan if isinstance(n, ast.Subscript) and norm(n.value) in operands)
         if accessors and n_acc == 0:
             problems.append('no call of %s inside the sum' % sorted(accessors))
         if n_ops == 0:
@@ -358,6 +390,30 @@ class Kinds:
                     ok = False
             self.busy.discard(e.id)
             return ok
+        if isinstance(e, ast.Call) and norm(e.func) in ('sum', 'np.sum') and e.args:
+            g = self.expand(e.args[0])
+            start_ok = len(e.args) < 2 or self.psd(e.args[1])
+            if isinstance(g, (ast.GeneratorExp, ast.ListComp)) and len(g.generators) == 1:
+                # element names bound by the generator(s) stand for themselves; chained generators are looked through
+                saved = dict(self.loc)
+                gi = g
+                for _ in range(4):
+                    it_ = self.expand(gi.generators[0].iter)
+                    tg = gi.generators[0].target
+                    if isinstance(it_, (ast.GeneratorExp, ast.ListComp)) and len(it_.generators) == 1:
+                        # for (a, b) in ((ea, eb) for ...): bind a := ea, b := eb
+                        if isinstance(tg, ast.Tuple) and isinstance(it_.elt, ast.Tuple) and len(tg.elts) == len(it_.elt.elts):
+                            for x, xv in zip(tg.elts, it_.elt.elts):
+                                if isinstance(x, ast.Name):
+                                    self.loc[x.id] = [xv]
+                        elif isinstance(tg, ast.Name):
+                            self.loc[tg.id] = [it_.elt]
+                        gi = it_
+                        continue
+                    break
+                ok_ = start_ok and self.psd(g.elt)
+                self.loc = saved
+                return ok_
         if isinstance(e, ast.Call) and norm(e.func) == 'np.empty':
             return True                         # container filled element-wise; elements judged at their stores
         self.why.append('`%s` is not of a recognised PSD kind' % norm(e0)[:70])
@@ -425,7 +481,14 @@ def _check_kinds(ctx: Ctx) -> None:
     adds = [n for n in walk_no_nested(fp.node) if isinstance(n, ast.Assign) and norm(n.targets[0]) == 'first_part'
             and 'Rek' in norm(n.value) and n not in [x for l in ast.walk(fp.node) if isinstance(l, ast.For) for x in ast.walk(l)]]
     ctx.instance('C11.c', fp.qualname + ':noise-once')
-    ok = len(adds) == 1 and norm(adds[0].value).replace(' ', '') in ('first_part+Rek', 'Rek+first_part')
+    def _one_rek_summand(e: ast.AST) -> bool:
+        # <sum of the link terms> + Rek : Rek is one top-level summand and occurs nowhere else
+        if not (isinstance(e, ast.BinOp) and isinstance(e.op, ast.Add)):
+            return False
+        l_, r_ = e.left, e.right
+        return (norm(r_) == 'Rek' and 'Rek' not in {x.id for x in ast.walk(l_) if isinstance(x, ast.Name)}) or \
+            (norm(l_) == 'Rek' and 'Rek' not in {x.id for x in ast.walk(r_) if isinstance(x, ast.Name)})
+    ok = len(adds) == 1 and _one_rek_summand(adds[0].value)
     ctx.obligation('C11.c', fp.qualname + ':noise-once', ok, {'noise_statements_outside_loop': [norm(a) for a in adds]})
     if not ok:
         ctx.violation('C11.c', fp.qualname, 'the noise/external covariance is not added exactly once after the sum', fp.path, fp.lineno,
@@ -493,8 +556,19 @@ def _check_kinds(ctx: Ctx) -> None:
             ctx.violation('C11.c', q, 'per-stream SINR is not stored as abs(|u^H H v|^2 / (u^H B u))', fn.path, fn.lineno, operand='abs')
     fn = M.func(IA, 'IASolverBaseClass.calc_sum_capacity')
     ctx.instance('C11.c', fn.qualname)
-    s = norm(fn.node.body[-1]).replace(' ', '')
-    ok = 'np.sum(np.log2(1+np.hstack(self.calc_SINR())))' in s
+    from .. import terms as T_
+    try:
+        ps = T_.path_terms(M, fn, opaque={'calc_SINR'})
+    except T_.Unknown as e:
+        ctx.error('C11.c: cannot normalise calc_sum_capacity (%s): cannot tell' % e)
+    got = {t for _, t in ps}
+    sinr = T_.Term.atom(('call', 'self.calc_SINR', ()))
+    wants = set()
+    for flat in ('np.hstack', 'np.concatenate'):
+        x = T_.Term.atom(('call', flat, (sinr.key(),)))
+        wants.add(T_.t_call('sum', [T_.t_call('log2', [T_.Term.const(1) + x])]))
+    ok = len(got) == 1 and bool(got & wants)
+    s = next(iter(got)).pretty() if got else ''
     ctx.obligation('C11.c', fn.qualname, ok, {'return': s[:90]})
     if not ok:
         ctx.violation('C11.c', fn.qualname, 'sum capacity is not sum(log2(1 + SINR)) of calc_SINR()', fn.path, fn.lineno, operand='capacity')
